@@ -51,6 +51,10 @@ PeerInit(NP, N, spec) ==
     alive  |-> TRUE,
     issued |-> [q \in 0..N-1 |-> {}],     \* handshake nonces sent to q and not yet answered
     matched |-> [q \in 0..N-1 |-> 0],     \* replies of q that answered an issued nonce (round trips)
+    gcount |-> 0,                       \* simulations of the glitch frame so far
+    glitchCall |-> -1,                  \* number of the call in which the game's glitch fired
+    ncalls |-> 0,                       \* advance_frame calls so far
+    mismatch |-> FALSE,                 \* MismatchedChecksum has been reported
     desyFirst |-> -1,                   \* first frame reported by a DesyncDetected event
     lastRes |-> "",                     \* result of the peer's last advance_frame
     mark   |-> -1000000,                \* current frame when the fault phase ended (C05)
@@ -60,7 +64,7 @@ InitRun(c, viol, stats, run) ==
   LET N  == Len(c.peers)
       NP == c.players
       pc == [p \in 0..N-1 |-> c.peers[p+1]]
-      isP2P(p) == pc[p].kind = "p2p"
+      isP2P(p) == pc[p].kind \in {"p2p", "synctest"}
       owns(p, h) == isP2P(p) /\ \E i \in 1..Len(pc[p].locals) : pc[p].locals[i] = h
       owner == [h \in 0..NP-1 |-> CHOOSE p \in 0..N-1 : owns(p, h)]
   IN [ N |-> N, NP |-> NP,
@@ -78,7 +82,11 @@ InitRun(c, viol, stats, run) ==
                        THEN pc[CHOOSE p \in 0..N-1 : Has(pc[p], "corrupt_from")].corrupt_from ELSE -1,
        transient |-> Get(c, "transient", FALSE),
        noInterrupt |-> Get(c, "no_interrupt", FALSE),
-       forged |-> Get(c, "forged", FALSE),     \* forged packets are injected: silence clocks are not exact   \* both sides poll at least every keep-alive interval   \* every fault of this run ends before the timeout
+       forged |-> Get(c, "forged", FALSE),
+       cd |-> Get(c, "check_distance", 2),               \* SyncTestSession: check distance
+       glitchFrame |-> Get(c, "glitch_frame", -1),
+       glitchK |-> Get(c, "glitch_k", 0),       \* the game's k-th simulation of this frame deviates
+       isSync |-> [p \in 0..N-1 |-> pc[p].kind = "synctest"],     \* forged packets are injected: silence clocks are not exact   \* both sides poll at least every keep-alive interval   \* every fault of this run ends before the timeout
        marked |-> FALSE, minProgress |-> 0,
        cf |-> [p \in 0..N-1 |-> Get(pc[p], "corrupt_from", 1000000000)],  \* game of p is corrupt from this frame
        owner |-> owner,
@@ -164,7 +172,7 @@ AdvViol(gg, p, pe, f, ins, r) ==
              V("C04", r.n, "new-frame-beyond-prediction-window", <<p, f, r.conf, gg.W>>))
      \o When(gg.W = 0 /\ \E i \in 1..Len(ins) : ins[i][2] = Predicted,
              V("C04", r.n, "lockstep-predicted-input", <<p, f>>))
-     \o When(f = 0 /\ first /\ gg.W > 0 /\ ~pe.saved0,
+     \o When(f = 0 /\ first /\ gg.W > 0 /\ ~pe.saved0 /\ (~gg.isSync[p] \/ gg.cd > 0),   \* a sync test with check distance 0 never rolls back
              V("C02", r.n, "frame0-simulated-before-saved", <<p>>))
 
 \* one request of a P2P request list; acc = [pe, vs, nA, nL, depth]
@@ -199,7 +207,9 @@ ReqStep(gg, p, r, acc, rq) ==
            LET f   == pe.gf
                ins == rq[2]
                nh0 == Chain(pe.gh, ins)
-               nh  == IF f >= gg.cf[p] THEN (nh0 + 17) % HashMod ELSE nh0   \* the harness' deliberate divergence
+               nh1 == IF f >= gg.cf[p] THEN (nh0 + 17) % HashMod ELSE nh0   \* the harness' deliberate divergence
+               gl  == f = gg.glitchFrame /\ pe.gcount + 1 = gg.glitchK       \* ... and deliberate glitch
+               nh  == IF gl THEN (nh1 + 1) % HashMod ELSE nh1
                changed == f \in DOMAIN pe.sim /\ \E i \in 1..Min2(Len(ins), Len(pe.sim[f])) : pe.sim[f][i][1] # ins[i][1]
            IN [acc EXCEPT
                  !.vs = @ \o AdvViol(gg, p, pe, f, ins, r),
@@ -207,6 +217,7 @@ ReqStep(gg, p, r, acc, rq) ==
                  !.pe.tl  = [x \in (DOMAIN pe.tl) \cup {f + 1} |-> IF x = f + 1 THEN nh ELSE pe.tl[x]],
                  !.pe.gf = f + 1,
                  !.pe.gh = nh,
+                 !.pe.gcount = IF f = gg.glitchFrame THEN @ + 1 ELSE @,
                  !.pe.maxSim = Max2(pe.maxSim, f),
                  !.nA = @ + 1,
                  !.nNew = @ + (IF f > pe.maxSim THEN 1 ELSE 0),
@@ -304,10 +315,28 @@ TickP2P(gg, r) ==
                nNew |-> 0, nPred |-> 0, nDisc |-> 0, nCorr |-> 0]
       acc  == IF ok THEN FoldLeft(LAMBDA a, rq : ReqStep(g1, p, r, a, rq), acc0, r.q) ELSE acc0
       pe1  == acc.pe
+      syncV == IF ~gg.isSync[p] THEN <<>>
+               ELSE IF r.r = "E:MismatchedChecksum" THEN
+                      When(gg.glitchFrame = -1,
+                           V("C13", r.n, "mismatch-reported-for-deterministic-game", <<p, Get(r, "mm", <<>>)>>))
+                      \o When(gg.glitchFrame # -1 /\ pe0.glitchCall = -1,
+                              V("C13", r.n, "mismatch-reported-before-the-glitch", <<p, Get(r, "mm", <<>>)>>))
+                      \o When(gg.glitchFrame # -1 /\ Has(r, "mm") /\ r.mm # <<>> /\ r.mm[1] # gg.glitchFrame + 1,
+                              V("C13", r.n, "mismatch-does-not-name-the-first-affected-frame",
+                                <<p, r.mm, gg.glitchFrame + 1>>))
+                      \o When(gg.glitchFrame # -1 /\ pe0.glitchCall # -1 /\ pe0.ncalls + 1 - pe0.glitchCall > gg.cd + 2,
+                              V("C13", r.n, "mismatch-reported-late", <<p, pe0.glitchCall, pe0.ncalls + 1, gg.cd>>))
+               ELSE When(gg.cd >= 2 /\ pe0.glitchCall # -1 /\ ~pe0.mismatch
+                           /\ pe0.ncalls + 1 - pe0.glitchCall > gg.cd + 2,
+                         V("C13", r.n, "nondeterminism-not-reported",
+                           <<p, pe0.glitchCall, pe0.ncalls + 1, gg.cd,
+                             \* history class: the game deviated on the first (live) simulation only
+                             IF gg.glitchK = 1 THEN "cls:first-simulation-only" ELSE "cls:resimulation">>))
       endV == IF ~ok THEN
                  When(r.r = "E:NotSynchronized" /\ pe0.run,
                       V("C12", r.n, "not-synchronized-while-running", <<p>>))
-                 \o When(r.r \notin {"E:NotSynchronized", "E:InvalidRequest", "E:PredictionThreshold"},
+                 \o When(r.r \notin {"E:NotSynchronized", "E:InvalidRequest", "E:PredictionThreshold"}
+                           /\ ~(gg.isSync[p] /\ r.r = "E:MismatchedChecksum"),
                          V("PANIC", r.n, r.r, <<p>>))
               ELSE
                  When(~pe0.run /\ ~r.run, V("C12", r.n, "advanced-while-not-running", <<p>>))
@@ -323,7 +352,10 @@ TickP2P(gg, r) ==
       finV == IF ok /\ r.run THEN FinalF(g1, p, pe1, pe1.ver + 1, hi, r) ELSE <<>>
       ver1 == IF ok /\ r.run THEN Max2(pe1.ver, hi) ELSE pe1.ver
       lo   == Min2(ver1 + 1, r.cur - gg.W - 2) - 1
-      pe2  == [pe1 EXCEPT !.ver = ver1,
+      pe2  == [pe1 EXCEPT !.ncalls = @ + 1,
+                          !.glitchCall = IF @ = -1 /\ Get(r, "glitched", FALSE) THEN pe0.ncalls + 1 ELSE @,
+                          !.mismatch = @ \/ r.r = "E:MismatchedChecksum",
+                          !.ver = ver1,
                           !.conf = Max2(@, r.conf),
                           !.cur = r.cur, !.run = r.run, !.fa = r.fa,
                           !.stat = [h \in 0..gg.NP-1 |-> r.st[h+1]],
@@ -348,7 +380,7 @@ TickP2P(gg, r) ==
                               !.verified = @ + (ver1 - pe1.ver),
                               !.notSync = @ + (IF r.r = "E:NotSynchronized" THEN 1 ELSE 0)]
   IN AddViol([g3 EXCEPT !.stats = st1],
-             acc.vs \o endV \o finV \o confV \o BufViol(gg, p, r))
+             acc.vs \o endV \o finV \o confV \o syncV \o BufViol(gg, p, r))
 
 ---------------------------------------------------------------------------
 \* a `tick` line of a spectator session (C06)
